@@ -16,6 +16,10 @@ pub enum Strategy {
     /// PCT-style: fixed random priorities, `change_points` (global yield counts) at which the running
     /// thread drops to the lowest priority; otherwise the highest-priority alive thread runs
     Pct { change_points: Vec<u64> },
+    /// park every thread that reaches hook site `site` until `count` threads are parked there (or nobody
+    /// else can run), then release them all and continue with short random run lengths: maximises the
+    /// number of threads simultaneously inside one region of the code under test
+    PileUp { site: u32, count: usize },
 }
 
 impl Strategy {
@@ -23,6 +27,7 @@ impl Strategy {
         match self {
             Strategy::Random { mean } => format!("random:{}", mean),
             Strategy::Pct { change_points } => format!("pct:{}", change_points.iter().map(|c| c.to_string()).collect::<Vec<_>>().join(",")),
+            Strategy::PileUp { site, count } => format!("pileup:{}:{}", site, count),
         }
     }
 }
@@ -45,6 +50,10 @@ pub struct State {
     pub forced_unblock: u64,
     /// threads presumed blocked inside jbonsai (on a lock another simulated thread holds)
     blocked: Vec<bool>,
+    /// PileUp: threads parked at the pile-up site; `released` once the pile was let go
+    parked: Vec<bool>,
+    released: bool,
+    pub max_piled: usize,
     pub tainted: bool,
     pub deadlocked: bool,
     /// yield points executed by all threads so far (updated at every decision)
@@ -68,6 +77,7 @@ thread_local! {
     static RAN: Cell<u64> = const { Cell::new(0) };
     static HB: Cell<*const AtomicU64> = const { Cell::new(std::ptr::null()) };
     static LOSTP: Cell<*const AtomicBool> = const { Cell::new(std::ptr::null()) };
+    static PILE_SITE: Cell<u32> = const { Cell::new(u32::MAX) };
 }
 
 impl State {
@@ -76,6 +86,19 @@ impl State {
         if alive.is_empty() {
             return (usize::MAX, 1);
         }
+        // PileUp bookkeeping happens on every decision, also when the choice itself is forced (replay),
+        // so that threads leave the slow path at the same points as in the recorded run
+        if let Strategy::PileUp { count, .. } = &self.strategy {
+            let free = alive.iter().filter(|i| !self.parked[**i]).count();
+            let piled = alive.len() - free;
+            self.max_piled = self.max_piled.max(piled);
+            if !self.released && (free == 0 || piled >= *count) {
+                self.released = true;
+                for p in self.parked.iter_mut() {
+                    *p = false;
+                }
+            }
+        }
         if let Some(q) = self.forced.as_mut() {
             match q.pop_front() {
                 Some((t, ran, fin)) if self.alive.get(t as usize).copied().unwrap_or(false) && !self.blocked[t as usize] => return (t as usize, if fin { ran + 1 } else { ran.max(1) }),
@@ -83,6 +106,17 @@ impl State {
             }
         }
         match &self.strategy {
+            Strategy::PileUp { .. } => {
+                let free: Vec<usize> = alive.iter().copied().filter(|i| !self.parked[*i]).collect();
+                if self.released {
+                    let t = alive[self.rng.below(alive.len())];
+                    (t, self.rng.run_len(3.0))
+                } else {
+                    // run a free thread until it reaches the site (it parks itself in `switch`)
+                    let t = free[self.rng.below(free.len())];
+                    (t, u64::MAX / 4)
+                }
+            }
             Strategy::Random { mean } => {
                 let t = alive[self.rng.below(alive.len())];
                 let len = self.rng.run_len(*mean);
@@ -118,6 +152,9 @@ impl Sched {
             switches_by_site: [0; 32],
             forced_unblock: 0,
             blocked: vec![false; nthreads],
+            parked: vec![false; nthreads],
+            released: false,
+            max_piled: 0,
             tainted: false,
             deadlocked: false,
             total: 0,
@@ -136,8 +173,14 @@ impl Sched {
         LOSTP.with(|l| l.set(&self.lost[id] as *const AtomicBool));
         ACTIVE.with(|a| a.set(true));
         let mut st = self.m.lock().unwrap();
+        if let Strategy::PileUp { site, .. } = st.strategy {
+            PILE_SITE.with(|p| p.set(site));
+        }
         while st.current != id {
             st = self.cvs[id].wait(st).unwrap();
+        }
+        if st.released {
+            PILE_SITE.with(|p| p.set(u32::MAX));
         }
         REMAINING.with(|r| r.set(st.pending_len));
         RAN.with(|r| r.set(0));
@@ -148,6 +191,7 @@ impl Sched {
         ACTIVE.with(|a| a.set(false));
         HB.with(|h| h.set(std::ptr::null()));
         LOSTP.with(|l| l.set(std::ptr::null()));
+        PILE_SITE.with(|p| p.set(u32::MAX));
         CTX.with(|c| *c.borrow_mut() = None);
         let mut st = self.m.lock().unwrap();
         let ran = RAN.with(|r| r.get());
@@ -220,6 +264,11 @@ impl Sched {
         let ran = RAN.with(|r| r.get());
         st.total += ran;
         let now = st.total;
+        if let Strategy::PileUp { site: s0, .. } = st.strategy {
+            if !st.released && site == s0 {
+                st.parked[id] = true;
+            }
+        }
         if let Strategy::Pct { .. } = st.strategy {
             // a change point: the running thread drops below everybody
             st.lowest -= 1;
@@ -229,6 +278,9 @@ impl Sched {
         let (next, len) = st.pick(now);
         if next == id {
             // keeps the baton
+            if st.released {
+                PILE_SITE.with(|p| p.set(u32::MAX));
+            }
             REMAINING.with(|r| r.set(len));
             st.log.push((id as u16, ran, false));
             RAN.with(|r| r.set(0));
@@ -242,6 +294,9 @@ impl Sched {
         self.cvs[next].notify_one();
         while st.current != id {
             st = self.cvs[id].wait(st).unwrap();
+        }
+        if st.released {
+            PILE_SITE.with(|p| p.set(u32::MAX));
         }
         REMAINING.with(|r| r.set(st.pending_len));
         RAN.with(|r| r.set(0));
@@ -269,7 +324,8 @@ pub fn yield_point(site: u32) {
     }
     RAN.with(|r| r.set(r.get() + 1));
     let left = REMAINING.with(|r| r.get());
-    if left > 1 {
+    let pile = PILE_SITE.with(|p| p.get()) == site;
+    if left > 1 && !pile {
         REMAINING.with(|r| r.set(left - 1));
         return;
     }
